@@ -207,4 +207,285 @@ theorem x12Encode_gen (list : List Sym) (body : List Nat) (p0 : Nat) (c0 : List 
             subst h
             exact exact (by simpa using hm) (by rw [hs0]; congr 1; omega)
 
+/-! ### the invariant of the main loop -/
+
+/-- like `Sync`, for the end game: at most one more codeword follows -/
+def SyncEnd (body cw : List Nat) (pos : Nat) : Prop :=
+  ∀ tail, tail.length ≤ 1 → NiceTail tail →
+    decRun .ascii { rest := cw ++ tail, eaten := 0, out := [], ecis := [] } =
+    decRun .ascii { rest := tail, eaten := cw.length, out := body.take pos, ecis := [] }
+
+def ExactFit (list : List Sym) (n : Nat) : Prop := ∃ S, firstBigEnough list n = some S ∧ dataCw S = n
+
+/-- the three situations the encoder can be in between two calls of a mode encoder -/
+inductive Phase (list : List Sym) (body : List Nat) (s : St) : Prop where
+  /-- decoder and encoder in step, in ASCII mode or with a latch pending -/
+  | normal (sync : Sync body s.cw s.pos) (pend : Pending s) (plan : PlanOK s.plan)
+      (more : s.newMode ≠ none → s.hasMore = true)
+  /-- a run ended without UNLATCH: exactly one ASCII codeword is still to come and fills the symbol -/
+  | endgame (more : s.hasMore = true) (sync : SyncEnd body s.cw s.pos) (mode : s.mode = .ascii)
+      (plan : s.plan = [(0, .ascii)]) (nm : s.newMode = none) (one : asciiSize (body.drop s.pos) ≤ 1)
+      (fit : ExactFit list (s.cw.length + asciiSize (body.drop s.pos)))
+  /-- everything is written and fills the symbol exactly -/
+  | done (nomore : s.hasMore = false) (dec : ∃ e, decRun .ascii { rest := s.cw, eaten := 0, out := [], ecis := [] } =
+        .ok { rest := [], eaten := e, out := body, ecis := [] }) (fit : ExactFit list s.cw.length)
+
+structure MI (list : List Sym) (body : List Nat) (s : St) : Prop where
+  inp : s.input = body
+  lst : s.list = list
+  le : s.pos ≤ body.length
+  phase : Phase list body s
+
+theorem niceTail_cons (c : Nat) (t : List Nat) (h : c ≠ 254) : NiceTail (c :: t) := by
+  unfold NiceTail; simpa using h
+
+/-- a C40 / Text / X12 run extends the invariant -/
+theorem tend_MI (list : List Sym) (body : List Nat) (p0 : Nat) (c0 : List Nat) (latch : Nat) (hl : latch ≠ 254)
+    (s' : St) (hsync : Sync body c0 p0) (h : TEnd list body p0 c0 latch s') : MI list body s' := by
+  obtain ⟨X, p, un, hsd, hp0, hp, hcw, hpos, hin, hli, hctl, hex⟩ := h.out
+  refine ⟨hin, hli, by rw [hpos]; exact hp, ?_⟩
+  have hstep : ∀ tail, TripleTail un tail →
+      decRun .ascii { rest := s'.cw ++ tail, eaten := 0, out := [], ecis := [] } =
+      decRun .ascii { rest := tail, eaten := s'.cw.length, out := body.take s'.pos, ecis := [] } := by
+    intro tail ht
+    rw [hcw]
+    have h1 := hsync ([latch] ++ X ++ (if un then [254] else []) ++ tail) (by simpa using niceTail_cons latch _ hl)
+    simp only [List.append_assoc, List.singleton_append, List.cons_append, List.nil_append] at h1 ⊢
+    rw [h1]
+    have h2 := hsd un tail c0.length (body.take p0) ht
+    simp only [List.append_assoc, List.singleton_append, List.cons_append, List.nil_append] at h2
+    rw [h2, take_seg body p0 p hp0, hpos]
+    congr 2
+    simp only [List.length_append, List.length_cons]
+    cases un <;> simp <;> omega
+  cases un with
+  | true =>
+    have hs : Sync body s'.cw s'.pos := fun tail ht => hstep tail ⟨ht, by simp⟩
+    rcases hctl with ⟨a1, a2, a3⟩ | ⟨_, a2, a3, a4⟩ | ⟨_, a2⟩
+    · exact .normal hs (Or.inl ⟨a1, a3⟩) (by rw [a2]; intro e he; simp at he; subst he; simp)
+        (fun hne => absurd a3 hne)
+    · exact .normal hs a3 a4 (fun _ => a2)
+    · cases a2
+  | false =>
+    have hs : SyncEnd body s'.cw s'.pos := fun tail hlen ht => hstep tail ⟨ht, fun _ => hlen⟩
+    obtain ⟨hone, hfit⟩ := hex rfl
+    rw [← hpos] at hone hfit
+    by_cases hmore : s'.hasMore = true
+    · rcases hctl with ⟨a1, a2, a3⟩ | ⟨a1, _⟩ | ⟨a1, _⟩
+      · exact .endgame hmore hs a1 a2 a3 hone hfit
+      · cases a1
+      · exfalso
+        have := of_decide_eq_true hmore
+        rw [hpos, hin, a1] at this
+        omega
+    · have hmf : s'.hasMore = false := by simpa using hmore
+      have hpl : s'.pos = body.length := by
+        have := of_decide_eq_false hmf
+        rw [hin] at this
+        rw [hpos] at this ⊢
+        omega
+      have hnil : body.drop s'.pos = [] := by rw [hpl]; exact List.drop_eq_nil_of_le (Nat.le_refl _)
+      rw [hnil] at hfit
+      simp only [asciiSize, Nat.add_zero] at hfit
+      refine .done hmf ⟨s'.cw.length, ?_⟩ hfit
+      have := hs [] (by simp) (by simp [NiceTail])
+      simp only [List.append_nil] at this
+      rw [this, decRun_nil _ _ rfl, hpl, List.take_length]
+
+/-- a Base 256 run extends the invariant -/
+theorem bend_MI (list : List Sym) (body : List Nat) (hb : ByteList body) (p0 : Nat) (c0 : List Nat)
+    (s' : St) (hsync : Sync body c0 p0) (h : BEnd list body p0 c0 s') : MI list body s' := by
+  obtain ⟨p, toEnd, hp0, hp, hcw, hpos, hin, hli, hte, htf, hctl⟩ := h.out
+  refine ⟨hin, hli, by rw [hpos]; exact hp, ?_⟩
+  have hstep : ∀ tail, NiceTail tail → B256OK (seg body p0 p) toEnd tail →
+      decRun .ascii { rest := s'.cw ++ tail, eaten := 0, out := [], ecis := [] } =
+      decRun .ascii { rest := tail, eaten := s'.cw.length, out := body.take s'.pos, ecis := [] } := by
+    intro tail _ hok
+    rw [hcw]
+    have h1 := hsync ([231] ++ randFrom (c0.length + 2) (b256Hdr (seg body p0 p) toEnd ++ seg body p0 p) ++ tail)
+      (by simpa using niceTail_cons 231 _ (by omega))
+    simp only [List.append_assoc] at h1 ⊢
+    rw [h1]
+    have h2 := seg_b256 (seg body p0 p) tail toEnd c0.length (body.take p0) [] hok
+    simp only [List.append_assoc] at h2
+    rw [h2, take_seg body p0 p (by omega), hpos]
+    congr 2
+    simp only [List.length_append, List.length_singleton, randFrom_length]
+    omega
+  cases toEnd with
+  | false =>
+    have hs : Sync body s'.cw s'.pos := fun tail ht =>
+      hstep tail ht ⟨seg_bytes body hb p0 p, by
+        simp only [Bool.false_eq_true, ↓reduceIte]
+        have := seg_length body p0 p (by omega) hp
+        exact ⟨by omega, htf rfl⟩⟩
+    rcases hctl with ⟨a1, a2, a3, _⟩ | ⟨_, a2, a3, a4⟩
+    · exact .normal hs (Or.inl ⟨a1, a3⟩) (by rw [a2]; intro e he; simp at he; subst he; simp)
+        (fun hne => absurd a3 hne)
+    · exact .normal hs a3 a4 (fun _ => a2)
+  | true =>
+    obtain ⟨hpl, hfit⟩ := hte rfl
+    have hmf : s'.hasMore = false := by simp [St.hasMore, hpos, hin, hpl]
+    refine .done hmf ⟨s'.cw.length, ?_⟩ hfit
+    have := hstep [] (by simp [NiceTail]) ⟨seg_bytes body hb p0 p, by simp⟩
+    simp only [List.append_nil] at this
+    rw [this, decRun_nil _ _ rfl, hpos, hpl, List.take_length]
+
+/-! ### one call of a mode encoder preserves the invariant -/
+
+theorem take_add_seg (body : List Nat) (p k : Nat) :
+    body.take (p + ((body.drop p).take k).length) = body.take p ++ (body.drop p).take k := by
+  have hl : ((body.drop p).take k).length = min k (body.length - p) := by simp
+  by_cases hk : k ≤ body.length - p
+  · rw [hl, Nat.min_eq_left hk, List.take_add]
+  · rw [hl, Nat.min_eq_right (by omega)]
+    rw [List.take_of_length_le (l := body.drop p) (by simp; omega)]
+    by_cases hp : p ≤ body.length
+    · rw [show p + (body.length - p) = body.length by omega, List.take_length, List.take_append_drop]
+    · rw [List.take_of_length_le (by omega), List.take_of_length_le (by omega), List.drop_eq_nil_of_le (by omega)]
+      simp
+
+theorem step_MI (list : List Sym) (body : List Nat) (hb : ByteList body) (s s' : St) (mi : MI list body s)
+    (hmore : s.hasMore = true) (h : encodeMode (latched s) = .ok s') : MI list body s' := by
+  have hlt : s.pos < body.length := by
+    have := of_decide_eq_true hmore
+    rw [mi.inp] at this
+    exact this
+  cases mi.phase with
+  | done nomore _ _ => rw [hmore] at nomore; cases nomore
+  | endgame _ sync mode plan nm one fit =>
+    -- the single ASCII codeword that is still to come
+    have hl : latched s = s := by simp [latched, nm]
+    rw [hl] at h
+    simp only [encodeMode, mode] at h
+    rw [asciiLoop_rest s plan mode (by rw [mi.inp]; exact mi.le)] at h
+    simp only [Except.ok.injEq] at h
+    subst h
+    have hrest : s.rest = body.drop s.pos := by simp [St.rest, mi.inp]
+    have hrb : ByteList (body.drop s.pos) := hb.drop _
+    have hseg := asciiSeg_asciiEnc _ hrb
+    have haszlen : (asciiEnc (body.drop s.pos)).length = asciiSize (body.drop s.pos) := asciiEnc_length _ _ (Nat.le_refl _)
+    refine ⟨mi.inp, mi.lst, by simp [mi.inp], .done (by simp [St.hasMore]) ⟨s.cw.length + (asciiEnc (body.drop s.pos)).length, ?_⟩
+      (by simpa [hrest, haszlen] using fit)⟩
+    simp only [hrest]
+    have htail : NiceTail (asciiEnc (body.drop s.pos)) := by
+      unfold NiceTail
+      cases hx : asciiEnc (body.drop s.pos) with
+      | nil => simp
+      | cons x xs =>
+        simp only [List.head?_cons, ne_eq, Option.some.injEq]
+        exact (hseg.1 x (by rw [hx]; simp)).1
+    rw [sync _ (by rw [haszlen]; exact one) htail]
+    have h2 := decRun_asciiSeg hseg [] s.cw.length (body.take s.pos)
+    simp only [List.append_nil] at h2
+    rw [h2, decRun_nil _ _ rfl, List.take_append_drop]
+  | normal sync pend plan more =>
+    cases hnm : s.newMode with
+    | none =>
+      -- ASCII
+      have hmode : s.mode = .ascii := by
+        rcases pend with ⟨a, _⟩ | ⟨l, _, b, _⟩
+        · exact a
+        · rw [hnm] at b; cases b
+      have hl : latched s = s := by simp [latched, hnm]
+      rw [hl] at h
+      simp only [encodeMode, hmode] at h
+      obtain ⟨X, c1, c2, c3, c4, c5, c6⟩ := asciiLoop_gen _ s s' h (by rw [mi.inp]; exact hb)
+      have hin' : s'.input = body := c4.1.trans mi.inp
+      have hle' : s'.pos ≤ body.length := by
+        have := asciiLoop_pos_le _ s s' h (by rw [mi.inp]; exact mi.le)
+        rw [mi.inp] at this
+        exact this
+      refine ⟨hin', c4.2.trans mi.lst, hle', ?_⟩
+      have hchunk : body.take s'.pos = body.take s.pos ++ (s.input.drop s.pos).take (s'.pos - s.pos) := by
+        rw [mi.inp]
+        have : s'.pos = s.pos + (s'.pos - s.pos) := by omega
+        conv => lhs; rw [this, List.take_add]
+      have hlenchunk : ((s.input.drop s.pos).take (s'.pos - s.pos)).length = s'.pos - s.pos := by
+        rw [mi.inp, List.length_take, List.length_drop]; omega
+      have hs : Sync body s'.cw s'.pos := by
+        have := sync_ascii sync c2 (by rw [hlenchunk]; rw [show s.pos + (s'.pos - s.pos) = s'.pos by omega]; exact hchunk)
+        rw [hlenchunk, show s.pos + (s'.pos - s.pos) = s'.pos by omega, ← c1] at this
+        exact this
+      have hplan' : PlanOK s'.plan := fun e he => plan e (c5 e he)
+      rcases c6 with ⟨a1, a2, a3⟩ | ⟨a1, a2, ⟨p, hp⟩, a4⟩
+      · exact .normal hs (Or.inl ⟨a2.trans hmode, a3.trans hnm⟩) hplan' (fun hne => absurd (a3.trans hnm) hne)
+      · rw [hnm] at a4
+        refine .normal hs ?_ hplan' (fun _ => a2)
+        cases hl2 : s'.mode.latch with
+        | none =>
+          exfalso
+          apply a1
+          rw [hmode]
+          cases hm : s'.mode <;> simp [hm, EMode.latch] at hl2
+          rfl
+        | some l =>
+          rw [hl2] at a4
+          exact Or.inr ⟨l, hl2, a4, (plan _ hp).2⟩
+    | some l =>
+      have hpl : ∃ l', s.mode.latch = some l' ∧ s.newMode = some l' ∧ s.mode ≠ .edifact := by
+        rcases pend with ⟨_, b⟩ | hp
+        · rw [hnm] at b; cases b
+        · exact hp
+      obtain ⟨l', hlat, hnl, hnedi⟩ := hpl
+      have hll : l' = l := by rw [hnm] at hnl; cases hnl; rfl
+      subst hll
+      have hlatched : latched s = { s with newMode := none }.push l' := by simp [latched, hnm]
+      rw [hlatched] at h
+      generalize hsL : ({ s with newMode := none }.push l' : St) = sL at h
+      have hLin : sL.input = body := by rw [← hsL]; exact mi.inp
+      have hLli : sL.list = list := by rw [← hsL]; exact mi.lst
+      have hLpos : sL.pos = s.pos := by rw [← hsL]; rfl
+      have hLnm : sL.newMode = none := by rw [← hsL]; rfl
+      have hLcw : sL.cw = s.cw ++ [l'] := by rw [← hsL]; rfl
+      have hLplan : PlanOK sL.plan := by rw [← hsL]; exact plan
+      have hLmode : sL.mode = s.mode := by rw [← hsL]; rfl
+      have hLcl : sL.charsLeft = body.length - s.pos := by simp [St.charsLeft, hLin, hLpos]
+      cases hm : s.mode with
+      | ascii => rw [hm] at hlat; simp [EMode.latch] at hlat
+      | edifact => exact absurd hm hnedi
+      | c40 =>
+        rw [hm] at hlat hLmode
+        simp only [EMode.latch, Option.some.injEq] at hlat
+        subst hlat
+        simp only [encodeMode, hLmode, c40Encode] at h
+        have inv0 : Inv false list body s.pos s.cw sL [] 0 0 :=
+          ⟨hLin, hLli, by simp [modeOf, hLmode], hLnm, by omega, by rw [hLpos]; exact mi.le, by simp,
+            by simp [Wb, hLpos, seg_self], by simp, by simp [Wb, hLpos, seg_self, packTriples, latchOf, hLcw], by omega⟩
+        have hend := c40Loop_gen false list body hb s.pos s.cw (body.length - s.pos) (sL.charsLeft + 2) sL [] 0 0 s'
+          (by rw [hLpos]) (by omega) inv0 hLplan h
+        exact tend_MI list body s.pos s.cw (latchOf false) (by simp [latchOf]) s' sync (c40_to_TEnd false list body s.pos s.cw s' hend)
+      | text =>
+        rw [hm] at hlat hLmode
+        simp only [EMode.latch, Option.some.injEq] at hlat
+        subst hlat
+        simp only [encodeMode, hLmode, c40Encode] at h
+        have inv0 : Inv true list body s.pos s.cw sL [] 0 0 :=
+          ⟨hLin, hLli, by simp [modeOf, hLmode], hLnm, by omega, by rw [hLpos]; exact mi.le, by simp,
+            by simp [Wb, hLpos, seg_self], by simp, by simp [Wb, hLpos, seg_self, packTriples, latchOf, hLcw], by omega⟩
+        have hend := c40Loop_gen true list body hb s.pos s.cw (body.length - s.pos) (sL.charsLeft + 2) sL [] 0 0 s'
+          (by rw [hLpos]) (by omega) inv0 hLplan h
+        exact tend_MI list body s.pos s.cw (latchOf true) (by simp [latchOf]) s' sync (c40_to_TEnd true list body s.pos s.cw s' hend)
+      | x12 =>
+        rw [hm] at hlat hLmode
+        simp only [EMode.latch, Option.some.injEq] at hlat
+        subst hlat
+        simp only [encodeMode, hLmode] at h
+        have hend := x12Encode_gen list body s.pos s.cw sL s' hLin hLli hLpos mi.le hLnm hLcw hLplan h
+        exact tend_MI list body s.pos s.cw 238 (by omega) s' sync hend
+      | base256 =>
+        rw [hm] at hlat hLmode
+        simp only [EMode.latch, Option.some.injEq] at hlat
+        subst hlat
+        simp only [encodeMode, hLmode, b256Encode] at h
+        have hstart : sL.cw.length = s.cw.length + 1 := by rw [hLcw]; simp
+        rw [hstart] at h
+        have inv0 : BInv list body s.pos s.cw (sL.push 0) :=
+          ⟨hLin, hLli, hLnm, by simp [St.push, hLpos], by simp [St.push, hLpos]; exact mi.le,
+            by simp [St.push, hLcw, hLpos, seg_self]⟩
+        have hend := b256Loop_gen list body hb s.pos s.cw (body.length - s.pos) (sL.charsLeft + 2) (sL.push 0) s'
+          (by simp [St.push, hLpos]) (by omega) inv0 (by simpa [St.push] using hLplan)
+          (Or.inl (by simp only [St.hasMore, St.push, hLin, hLpos]; simpa [St.hasMore, mi.inp] using hmore)) h
+        exact bend_MI list body hb s.pos s.cw s' sync hend
+
 end DM.Lemmas.MainRT
